@@ -25,6 +25,7 @@ type ChainDatabase struct {
 	BizDB           *BizDatabase
 	RW              sync.RWMutex
 	BizRW           sync.RWMutex
+	scanCandidates  bool // candidates were changed by AfterScan. They are flushed after the scan
 }
 
 func checkHome(home string) error {
@@ -61,7 +62,14 @@ func NewChainDataBase(home string) *ChainDatabase {
 
 	db.BizDB = NewBizDatabase(db, db.LevelDB)
 	db.Beansdb = NewBeansDB(home, db.LevelDB)
+	// finish the commits whose batch is in the write-ahead file but which did not move the stable block or flush the candidates before the process died
+	db.Beansdb.Scan = db
 	db.Beansdb.Start()
+	if db.scanCandidates {
+		if err := db.Context.Flush(); err != nil {
+			panic("flush candidates err: " + err.Error())
+		}
+	}
 
 	stableBlock, err := db.GetStableBlock()
 	if err != nil && err != ErrStableBlockNotExist {
@@ -152,7 +160,7 @@ func (database *ChainDatabase) commitStableBlock(val []byte) error {
 			return leveldb.SetCurrentBlock(database.LevelDB, block.Hash())
 		}
 	} else {
-		log.Errorf("commit stable block.block height: " + strconv.Itoa(int(block.Height())))
+		log.Debugf("commit stable block.block height: " + strconv.Itoa(int(block.Height())))
 		if block.Height() <= stableBlock.Height() {
 			return nil
 		} else {
@@ -180,6 +188,7 @@ func (database *ChainDatabase) isCandidate(account *types.AccountData) bool {
 	}
 }
 
+// commitCandidates updates the candidate list by a replayed account, like blockCommit does it for the accounts of a block
 func (database *ChainDatabase) commitCandidates(val []byte) error {
 	var account types.AccountData
 	err := rlp.DecodeBytes(val, &account)
@@ -187,39 +196,33 @@ func (database *ChainDatabase) commitCandidates(val []byte) error {
 		return err
 	}
 
-	if !database.isCandidate(&account) {
+	// an unregistered candidate keeps its record (with 0 votes), see blockCommit
+	if len(account.Candidate.Profile) <= 0 || account.Candidate.Votes == nil {
 		return nil
-	} else {
-		candidates := make([]*Candidate, 1)
-		candidates[0] = &Candidate{
-			Address: account.Address,
-			Total:   account.Candidate.Votes,
-		}
-		err := database.Context.SetCandidates(candidates)
-		if err != nil {
-			return err
-		}
-
-		return database.Context.Flush()
 	}
+
+	candidates := make([]*Candidate, 1)
+	candidates[0] = &Candidate{
+		Address: account.Address,
+		Total:   account.Candidate.Votes,
+	}
+	database.scanCandidates = true
+	return database.Context.SetCandidates(candidates)
 }
 
+// AfterScan is called for every record of the write-ahead file which is replayed at start.
+// blockCommit moves the stable block and updates the candidate list after the batch is written. If the process dies
+// between, the batch is replayed but the stable block would stay behind the accounts. So the same is done here
 func (database *ChainDatabase) AfterScan(flag uint32, key []byte, val []byte) error {
 	if flag == leveldb.ItemFlagBlock {
-		err := database.commitStableBlock(val)
-		if err != nil {
-			return err
-		}
+		return database.commitStableBlock(val)
 	}
 
 	if flag == leveldb.ItemFlagAct {
-		err := database.commitCandidates(val)
-		if err != nil {
-			return err
-		}
+		return database.commitCandidates(val)
 	}
 
-	return database.BizDB.AfterCommit(flag, key, val)
+	return nil
 }
 
 /**
